@@ -1,11 +1,14 @@
 import Snowflake.Props.C05
+import Snowflake.Model.Reasm
 import Snowflake.Props.C09
 /-!
 # C01 — end-to-end byte stream exact and ordered across proxy churn  (proof-partial)
 
 Snowflake's own code implements an *honest lossy datagram service per ClientID* over a sequence of
 carriers; KCP + smux (third-party) turn such a service into a reliable ordered stream.  The second half
-is not modelled; it enters `e2e_exact` as an explicit hypothesis.  This file proves the first half on
+is reduced to two explicit hypotheses on the third-party layer (numbered-segment datagram codec,
+retransmission until delivered) by the reassembly argument at the end of this file (`e2e_prefix_safe`,
+`e2e_never_taken_back`, `e2e_exact_partial` over `Model/Reasm.lean`).  The first half is proved on
 the models of the framing (`Encap`) and of the server's carrier layer (`Server`):
 
 * `frames_prefix_closed` – a carrier cut after *any* byte offset (inside the preface is handled by the
@@ -164,20 +167,147 @@ theorem honest_lossy_downstream (hr : Reachable token qs st) (k : Nat) (id : CID
   rw [Encap.C09.fragmentation_independent _ _ _ (Nat.lt_succ_self _)]
   exact hj
 
-/-- What the third-party layers are assumed to provide: over any datagram service that delivers, per
-session, only datagrams of that session, unmodified, and that eventually delivers when retried, the
-stream read at one end equals the stream written at the other.  (kcp-go and smux are not modelled.) -/
-structure KcpSmuxReliable (Stream : Type) where
-  written : Stream
-  read : Stream
-  exact : written = read
+/-! ## From honest lossy carriers to the exact stream
 
-/-- The end-to-end statement, relative to the hypothesis on KCP/smux. -/
-theorem e2e_exact {Stream : Type} (h : KcpSmuxReliable Stream) : h.read = h.written := h.exact.symm
+The reliability layer (kcp-go under smux) is third-party code and is not modelled line by line.  What the
+property needs from it is isolated here as two explicit assumptions — its datagrams carry numbered segments
+that decode back to what was encoded (`SegCodec`), and it keeps retransmitting, so that every segment
+eventually gets through while some working proxy is available (`hall` below) — and everything else is
+proved: the carrier layer of this repository delivers to a session only datagrams its peer wrote, whole and
+unaltered (`honest_lossy_upstream` / `honest_lossy_downstream`, corollaries `…_only_sent`), and over *any*
+such lossy, duplicating, reordering service a receiver that reassembles by segment number hands the reader a
+prefix of the written stream at every moment, never takes bytes back, and hands over exactly the written stream
+once every segment has arrived (`Model/Reasm.lean`). -/
+
+/-- Upstream: everything the server queued for KCP from carrier `k` is one of the packets the client wrote. -/
+theorem upstream_only_sent (hr : Reachable token qs st) (k : Nat) (id : CID) (ps : List Bytes)
+    (hps : ∀ p ∈ ps, p.length < 1048576) (hpres : (st.cs k).presented = some id)
+    (hpre : (st.cs k).allIn <+: token ++ id ++ encodeItems (dataItems ps)) :
+    ∀ d ∈ (st.cs k).queued, d ∈ ps := by
+  obtain ⟨j, hj⟩ := honest_lossy_upstream hr k id ps hps hpres hpre
+  intro d hd
+  rw [hj] at hd
+  exact List.mem_of_mem_take hd
+
+/-- Downstream: everything framed onto a carrier that presented `id` is one of the packets the server's KCP wrote
+for `id`. -/
+theorem downstream_only_sent (hr : Reachable token qs st) (k : Nat) (id : CID)
+    (hpres : (st.cs k).presented = some id) :
+    ∀ d ∈ (st.cs k).written, d ∈ st.enq id :=
+  fun _ hd => (C05.downstream_only_to_same_id hr k id hpres).subset hd
+
+/-- **Assumption 1 on the reliability layer**: its datagrams carry a segment number and a payload and decode
+back to what was encoded.  (kcp-go's header carries `sn`; smux frames ride inside the KCP byte stream.) -/
+structure SegCodec where
+  enc : Nat → Bytes → Bytes
+  dec : Bytes → Option (Nat × Bytes)
+  dec_enc : ∀ i p, dec (enc i p) = some (i, p)
+
+open Snowflake.Reasm in
+/-- Datagrams that were written by the peer — each the encoding of some segment under its own number, sent
+any number of times — decode to honest arrivals, whichever of them get through, in whatever order and
+multiplicity, over however many carriers. -/
+theorem arrivals_honest (c : SegCodec) (segs : List Bytes) (sent ds : List Bytes)
+    (hsent : ∀ pkt ∈ sent, ∃ i p, segs[i]? = some p ∧ pkt = c.enc i p)
+    (hds : ∀ d ∈ ds, d ∈ sent) :
+    Honest segs (ds.filterMap c.dec) := by
+  intro e he
+  obtain ⟨d, hd, hdec⟩ := List.mem_filterMap.mp he
+  obtain ⟨i, p, hip, hpk⟩ := hsent d (hds d hd)
+  rw [hpk, c.dec_enc] at hdec
+  cases hdec
+  exact hip
+
+open Snowflake.Reasm in
+/-- **C01, safety.** Whatever the carriers did — died, froze, were cut after any byte, were replaced, delivered
+late or twice — the bytes handed to the reader are at every moment a whole-segment prefix of the bytes written at
+the other end: nothing missing in the middle, duplicated, reordered or foreign. -/
+theorem e2e_prefix_safe (c : SegCodec) (segs : List Bytes) (sent ds : List Bytes)
+    (hsent : ∀ pkt ∈ sent, ∃ i p, segs[i]? = some p ∧ pkt = c.enc i p)
+    (hds : ∀ d ∈ ds, d ∈ sent) (n : Nat) :
+    ∃ k, delivered (run init (ds.filterMap c.dec)) n = (segs.take k).flatten :=
+  delivered_prefix (sound_run _ _ (sound_init segs) (arrivals_honest c segs sent ds hsent hds)) n
+
+open Snowflake.Reasm in
+/-- **C01, exactly once.** Bytes already handed to the reader are never taken back or changed by anything that
+arrives later. -/
+theorem e2e_never_taken_back (c : SegCodec) (ds later : List Bytes) (n : Nat) :
+    delivered (run init (ds.filterMap c.dec)) n <+: delivered (run init ((ds ++ later).filterMap c.dec)) n := by
+  rw [List.filterMap_append, run_append]
+  exact delivered_mono _ _ n
+
+open Snowflake.Reasm in
+/-- **C01, exactness (partial: relative to Assumption 2).** If moreover every segment got through at least once
+— *Assumption 2 on the reliability layer*: it retransmits until acknowledged, and some working proxy
+eventually becomes available — the reader has been handed exactly the written stream. -/
+theorem e2e_exact_partial (c : SegCodec) (segs : List Bytes) (sent ds : List Bytes)
+    (hsent : ∀ pkt ∈ sent, ∃ i p, segs[i]? = some p ∧ pkt = c.enc i p)
+    (hds : ∀ d ∈ ds, d ∈ sent)
+    (hall : ∀ i, i < segs.length → ∃ p, c.enc i p ∈ ds)
+    (n : Nat) (hn : segs.length ≤ n) :
+    delivered (run init (ds.filterMap c.dec)) n = segs.flatten := by
+  refine delivered_exact (sound_run _ _ (sound_init segs) (arrivals_honest c segs sent ds hsent hds)) ?_ n hn
+  intro i hi
+  obtain ⟨p, hp⟩ := hall i hi
+  apply run_holds
+  right
+  exact ⟨p, List.mem_filterMap.mpr ⟨c.enc i p, hp, c.dec_enc i p⟩⟩
 
 /-! ## Non-vacuity -/
 
 example : ∃ j, (decodeAll ((encodeItems (dataItems [[1, 2, 3], [4]])).take 5)).1 = [[1, 2, 3], [4]].take j :=
   ⟨1, by decide +kernel⟩
+
+/-- A concrete codec (segment number in unary, then a zero byte): `SegCodec` is inhabited. -/
+def encU (i : Nat) (p : Bytes) : Bytes := List.replicate i 1 ++ 0 :: p
+
+def decU : Bytes → Option (Nat × Bytes)
+  | [] => none
+  | b :: rest => if b = 0 then some (0, rest) else
+      match decU rest with
+      | some (i, p) => some (i + 1, p)
+      | none => none
+
+theorem decU_encU : ∀ (i : Nat) (p : Bytes), decU (encU i p) = some (i, p) := by
+  intro i
+  induction i with
+  | zero => intro p; simp [encU, decU]
+  | succ i ih =>
+    intro p
+    have : encU (i + 1) p = 1 :: encU i p := by simp [encU, List.replicate_succ]
+    rw [this, decU, ih p]
+    simp
+
+def demoCodec : SegCodec := ⟨encU, decU, decU_encU⟩
+
+/-- The hypotheses of the composition are satisfiable with loss, duplication and reordering: three segments; the
+datagrams arrive as 2, 0, 0, 1 (the first copy of 1 was lost); the reader gets exactly the written stream. -/
+example :
+    let segs : List Bytes := [[10], [20, 21], [30]]
+    let sent : List Bytes := [encU 0 [10], encU 1 [20, 21], encU 1 [20, 21], encU 2 [30]]
+    let ds : List Bytes := [encU 2 [30], encU 0 [10], encU 0 [10], encU 1 [20, 21]]
+    (∀ pkt ∈ sent, ∃ i p, segs[i]? = some p ∧ pkt = demoCodec.enc i p)
+    ∧ (∀ d ∈ ds, d ∈ sent)
+    ∧ (∀ i, i < segs.length → ∃ p, demoCodec.enc i p ∈ ds)
+    ∧ Reasm.delivered (Reasm.run Reasm.init (ds.filterMap demoCodec.dec)) 3 = segs.flatten := by
+  refine ⟨?_, ?_, ?_, by decide +kernel⟩
+  · intro pkt h
+    simp only [List.mem_cons, List.not_mem_nil, or_false] at h
+    rcases h with rfl | rfl | rfl | rfl
+    · exact ⟨0, [10], rfl, rfl⟩
+    · exact ⟨1, [20, 21], rfl, rfl⟩
+    · exact ⟨1, [20, 21], rfl, rfl⟩
+    · exact ⟨2, [30], rfl, rfl⟩
+  · decide +kernel
+  · intro i hi
+    have : i = 0 ∨ i = 1 ∨ i = 2 := by simp at hi; omega
+    rcases this with rfl | rfl | rfl
+    · exact ⟨[10], by decide +kernel⟩
+    · exact ⟨[20, 21], by decide +kernel⟩
+    · exact ⟨[30], by decide +kernel⟩
+
+/-- Before the lost segment is retransmitted the reader holds a strict prefix (segment 0 only), not garbage. -/
+example : Reasm.delivered (Reasm.run Reasm.init ([encU 2 [30], encU 0 [10], encU 0 [10]].filterMap demoCodec.dec)) 3 = [10] := by
+  decide +kernel
 
 end Snowflake.C01
